@@ -25,6 +25,10 @@ def build(ctx):
     # kernel complexes whose NAME starts with a statement keyword and whose pattern starts with `d( ... )`: no keyword
     # statement accepts an opening bracket there, so the text has exactly one reading and must round-trip
     for kw in pt.KEYWORDS:
+        if kw in ("complex", "structure"):
+            # the dot-bracket of the strand notations is a word over `( ) . +` and blanks: `complexT = d( + )` IS a strand-notation
+            # complex named T with strand d (found by the thorough tier as a false alarm of this stream; the text is ambiguous)
+            continue
         for _ in range(6 if quick else 60):
             t = pt.gen_tree(rng, "kernel-complex", 3)
             t[1] = kw + pt.ident(rng)
